@@ -207,6 +207,11 @@ def _jget(sx, args, kwargs, st, node):
     return [R(st, Val(V.Json, B.J()["get"](args[0].term, k.term)))]
 
 
+@REG.model("jintval")
+def _jintval(sx, args, kwargs, st, node):
+    return [R(st, Val(V.Int, B.J()["int"](args[0].term)))]
+
+
 @REG.model("jlen")
 def _jlen(sx, args, kwargs, st, node):
     return [R(st, Val(V.Int, B.J()["len"](args[0].term)))]
@@ -226,7 +231,9 @@ JSTR, JINT, JLIST = 4, 2, 5
 LOWHEX = "(jkind(%s) == 4 and len(jstr(%s)) == %d and all(c in '0123456789abcdef' for c in jstr(%s)))"
 TAG_OK = ("jkind(jitem(event.tags, i)) == 5 and jlen(jitem(event.tags, i)) > 0 and jkind(jitem(jitem(event.tags, i), 0)) == 4 and "
           "all_range(0, jlen(jitem(event.tags, i)), lambda k: jkind(jitem(jitem(event.tags, i), k)) == 4 or jkind(jitem(jitem(event.tags, i), k)) == 2)")
+# (the ranges: what both backends can index -- a 4-byte unsigned timestamp, a NIP-01 kind; fix 3e4123b)
 CANON = ("jkind(event.created_at) == 2 and jkind(event.kind) == 2 and jkind(event.content) == 4 and "
+         "0 <= jintval(event.created_at) and jintval(event.created_at) < 4294967296 and 0 <= jintval(event.kind) and jintval(event.kind) <= 65535 and "
          + LOWHEX % ("event.pubkey", "event.pubkey", 64, "event.pubkey") + " and "
          + LOWHEX % ("event.sig", "event.sig", 128, "event.sig") + " and "
          "jkind(event.tags) == 5 and all_range(0, jlen(event.tags), lambda i: %s) and "
